@@ -223,4 +223,15 @@ def run(ctx):
         f = ctx.prog.func(mod, q, "C03-API")
         kc = [c for c in A.calls_in(f) if A.last_attr(c) == "batch_get_posterior_samples"]
         ctx.check("C03-API", f, "%s hands n_linear_samples and rng to the kernel" % q, len(kc) == 1 and [canon(a) for a in kc[0].args[1:3]] == ["n_linear_samples", "rng"], "kernel call: %s" % (A.unparse(kc[0])[:80] if kc else None), key=q + ":kernel")
+    # the conditional posterior is the posterior of THE design matrix: columns and reference epoch (shared clauses)
+    from .C08 import check_col
+    ctx.rule("C03-DESIGN", "the linear block is [Kepler | 1, offset indicators | (t - t_ref)^1, ..] in the order the kernel attaches the priors of (K, v0, offsets, v1, ..) to "
+                           "(shared implementation with C08-COL / C01-DESIGN).")
+    check_col(_Relabel(ctx, {"C08-COL": "C03-DESIGN"}))
+    from .C04 import check_tref as c04_tref
+    from .C15 import check_tref as c15_tref
+    ctx.rule("C03-EPOCH", "one reference epoch for the Kepler column, the trend powers and the returned samples: data._t_ref_bmjd is the TCB MJD of the stored t_ref "
+                          "(shared implementation with C04-TREF and C15-TREF).")
+    c04_tref(_Relabel(ctx, {"C04-TREF": "C03-EPOCH"}), K)
+    c15_tref(_Relabel(ctx, {"C15-TREF": "C03-EPOCH"}))
     ctx.assume("numpy's Generator.multivariate_normal(mean, cov, size) returns iid N(mean, cov) draws; dsysv solves the symmetric system")
